@@ -87,6 +87,7 @@ let parse_op (s : string) : op option =
     | _ -> None
   with _ -> None
 
+let model_cap = 300
 let stat_tbl : (string, int) Hashtbl.t = Hashtbl.create 64
 let bump k n = Hashtbl.replace stat_tbl k (n + try Hashtbl.find stat_tbl k with Not_found -> 0)
 let maxi k n = Hashtbl.replace stat_tbl k (max n (try Hashtbl.find stat_tbl k with Not_found -> 0))
@@ -107,10 +108,14 @@ let () =
           | "max" -> cmp_max | "sub" -> cmp_sub | "sub3" -> cmp_sub3 | "rsub" -> cmp_rsub | _ -> cmp_min in
         bump ("cases_" ^ impl_s) 1; bump ("cases_" ^ ord_s) 1; maxi "max_cap" cap;
         let st = ref (new0 impl (nat_of_int cap)) in
-        let insync = ref true in
+        (* the exact model costs O(cap) list walks per operation: cases above [model_cap] entries are
+           refereed by the extracted specification only (PANIC/HANG and wrong results are still api) *)
+        let insync = ref (cap <= model_cap) in
+        if cap > model_cap then bump "cases_spec_only" 1;
         let am = ref (Some (empty_map (nat_of_int cap))) in   (* None after an api mismatch *)
         let opno = ref 0 in
         let structural = ref 0 in
+        let size = ref 0 in   (* entries held, followed from the observed results (statistics only) *)
         (* reports of one case are printed at its end, property-level (api) ones first: the
            check reports the first mismatch of a case *)
         let reports = ref [] in
@@ -158,8 +163,10 @@ let () =
                    (match o, r with
                     | (Peek | Delete), OEntry (_, k, _) ->
                       (* tie: more than one held entry with an extremal key *)
-                      let ties = List.length (List.filter (function Some (k', _) -> int_of_z (cmp k k') = 0 | None -> false) m) in
-                      if ties > 1 then bump "extremal_ties" 1
+                      if cap <= model_cap then begin
+                        let ties = List.length (List.filter (function Some (k', _) -> int_of_z (cmp k k') = 0 | None -> false) m) in
+                        if ties > 1 then bump "extremal_ties" 1
+                      end
                     | _ -> ());
                    (match spec_step cmp m o r with
                     | Some m' ->
@@ -168,18 +175,19 @@ let () =
                          if int_of_z i < 0 || int_of_z i >= cap then bump "rejected_out_of_range" 1 else bump "rejected_in_range" 1
                        | DeleteIndex i, ONoKV | PeekIndex i, ONoKV ->
                          if int_of_z i < 0 || int_of_z i >= cap then bump "rejected_out_of_range" 1 else bump "rejected_in_range" 1
-                       | Insert _, OBool true -> bump "insert_ok" 1
+                       | Insert _, OBool true -> bump "insert_ok" 1; incr size
                        | ChangeKey (i, k), OBool true ->
                          (match aget m i with
                           | Some (k0, _) ->
                             let c = int_of_z (cmp k k0) in
                             bump (if c < 0 then "changekey_toward_root" else if c > 0 then "changekey_away_from_root" else "changekey_same") 1
                           | None -> ());
-                         if int_of_z (held_count m) >= 3 then incr structural
-                       | DeleteIndex _, OKV _ -> bump "deleteindex_ok" 1; if int_of_z (held_count m) >= 3 then incr structural
-                       | Delete, OEntry _ -> bump "delete_ok" 1
+                         if !size >= 3 then incr structural
+                       | DeleteIndex _, OKV _ -> bump "deleteindex_ok" 1; if !size >= 3 then incr structural; decr size
+                       | Delete, OEntry _ -> bump "delete_ok" 1; decr size
+                       | DeleteAll, _ -> size := 0
                        | _ -> ());
-                      maxi "max_size" (int_of_z (held_count m'));
+                      maxi "max_size" !size;
                       am := Some m'
                     | None ->
                       api_bad := true; am := None;
